@@ -88,6 +88,8 @@ PLAN = {
         dict(test="TestC18Dense", kind="plain", quick=(0, 1), thorough=(0, 1)),
         dict(test="TestC18Leader", quick=(30000, 4), thorough=(1500000, 8)),
         dict(test="TestC18N", quick=(4000, 8), thorough=(100000, 8), timeout_thorough=7200),
+        # the member at position (view mod n) does take the lead when voted, also several rotations ahead of its own view
+        dict(test="TestC18Elect", quick=(4000, 4), thorough=(100000, 8)),
     ],
     "C06": [
         dict(test="TestC06Exhaustive", kind="plain", quick=(0, 1), thorough=(0, 1)),
